@@ -62,7 +62,7 @@ func init() {
 		return func(thorough bool) []*Job {
 			var jobs []*Job
 			cfgs := []CacheCfg{
-				{MaxSize: 2}, {MaxSize: 3}, {MaxWeight: 4},
+				{MaxSize: 2}, {MaxSize: 3}, {MaxWeight: 4}, {MaxWeight: 10},
 				{},
 				{MaxSize: 2, Expiry: "writing", TTL: 100, ClockStart: 1 << 40},
 				{MaxWeight: 4, Expiry: "accessing", TTL: 100, ClockStart: 5},
@@ -89,6 +89,17 @@ func init() {
 					depth, budget = 5, 600
 				}
 				jobs = append(jobs, seqJob(seqParams{Cfg: cfg, Alphabet: a, Kinds: kinds}, depth, 4, budget))
+				// non-initial states: entries spread over the policy's queues (a zero-weight entry that reached the
+				// main space by being re-weighed, promoted entries, entries still in the window)
+				if cfg.MaxWeight > 0 {
+					prefixes := [][]string{
+						{"set 1 2", "set 1 0"},
+						{"set 1 2", "set 1 0", "set 2 2", "get 2", "cleanup"},
+						{"set 1 2", "set 1 0", "set 2 1", "get 2", "cleanup", "set 3 1"},
+						{"set 1 1", "set 2 1", "get 1", "get 1", "cleanup", "set 1 0", "set 3 2"},
+					}
+					jobs = append(jobs, seqJob(seqParams{Cfg: cfg, Alphabet: a, Kinds: kinds, Prefixes: prefixes}, depth-1, 4, budget))
+				}
 			}
 			return jobs
 		}
@@ -215,7 +226,11 @@ func init() {
 						}
 					}
 					a = append(a, "gete 1", "adv 1", "adv 7", "inv 1")
-					jobs = append(jobs, seqJob(seqParams{Cfg: cfg, Alphabet: a, Kinds: kinds, Probe: true}, 2, 2, 120, "probes"))
+					depth := 3
+					if thorough {
+						depth = 4
+					}
+					jobs = append(jobs, seqJob(seqParams{Cfg: cfg, Alphabet: a, Kinds: kinds, Probe: true}, depth, 2, 300, "probes", "hook-checks"))
 				}
 			}
 		}
@@ -282,7 +297,13 @@ func init() {
 	// ---- C19: save / load round trip at every reachable state ----
 	plans["C19"] = func(thorough bool) []*Job {
 		var jobs []*Job
-		for _, cfg := range featureCfgs(true) {
+		cfgs := featureCfgs(true)
+		// an executor that has not run the scheduled maintenance yet when the cache is saved
+		cfgs = append(cfgs,
+			CacheCfg{MaxSize: 3, Executor: "deferred"},
+			CacheCfg{MaxSize: 3, Expiry: "writing", TTL: 100, Refresh: "writing", RefreshTTL: 40, Executor: "deferred", ClockStart: 1 << 40},
+			CacheCfg{MaxWeight: 4, Executor: "deferred"})
+		for _, cfg := range cfgs {
 			if !thorough && (cfg.Expiry == "creating" || cfg.Expiry == "custom") {
 				continue
 			}
@@ -304,6 +325,9 @@ func init() {
 			}
 			if cfg.Expiry != "" || cfg.Refresh != "" {
 				a = append(a, "adv 1", "adv 39", "adv 60")
+			}
+			if cfg.Executor == "deferred" {
+				a = append(a, "runexec")
 			}
 			depth, budget := 3, 90
 			if thorough {
